@@ -17,7 +17,8 @@ META = {
     "level": "exploration",
     "engine": "hypothesis",
     "rule": "cases = (starter list in {none, [Borda], [Borda(bucket)], [Copeland], [KwikSort], [PickAPerm], [Borda, "
-            "Copeland], [KwikSort, PickAPerm], [Copeland, KwikSort, Borda]} each starter wrapped in a recording proxy, "
+            "Copeland], [KwikSort, PickAPerm], [Copeland, KwikSort, Borda], lists with duplicates followed by an exact "
+            "starter, five KwikSort restarts} each starter wrapped in a recording proxy, "
             "scheme, dataset biased to incomplete data and to first-appearance order unrelated to ranking order). "
             "No starters: exact score of the result <= score of every input ranking completed with its missing "
             "elements as a last bucket, and <= score of the all-tied ranking. Starters: <= score of each consensus the "
@@ -47,6 +48,10 @@ STARTERS = {
     "borda_cop_exact": lambda: [BordaCount(), CopelandMethod(), ExactAlgorithmPulp()],
     "cop_borda_bucket_borda_kwik": lambda: [CopelandMethod(), BordaCount(True), BordaCount(), KwikSortRandom()],
     "exact_exact_borda": lambda: [ExactAlgorithmPulp(), ExactAlgorithmPulp(), BordaCount()],
+    # the same randomised starter several times ("restarts"): instances that share class and name but return
+    # different rankings - every one of them is a starting point
+    "kwik_x5": lambda: [KwikSortRandom() for _ in range(5)],
+    "kwik_x3_borda_x2": lambda: [KwikSortRandom(), BordaCount(True), KwikSortRandom(), BordaCount(), KwikSortRandom()],
 }
 SHAPES = ["incomplete", "incomplete", "sparse_block", "near_unanimous_incomplete", "cyclic_incomplete", "block_cyclic",
           "complete", "near_unanimous", "cyclic"]
